@@ -110,6 +110,36 @@ type Stats struct {
 // Abort is the panic value Y uses to unwind an operation that overran.
 type Abort struct{ Why string }
 
+// An Abort panic can be SWALLOWED on its way up: fmt recovers panics raised inside
+// String/GoString/Error methods and prints "%!s(PANIC=...)" instead. The harness
+// therefore never trusts the result of an operation during which an abort was
+// raised; it asks AbortRaised.
+var (
+	abortRaised     [MaxTasks]bool
+	soloAbortRaised bool
+)
+
+//go:norace
+func raise(why string) {
+	if active {
+		abortRaised[cur] = true
+	} else {
+		soloAbortRaised = true
+	}
+	panic(Abort{why})
+}
+
+// AbortRaised reports whether an abort was raised in the current task's current
+// operation (simulated run) or since the last CountBegin (solo pass).
+//
+//go:norace
+func AbortRaised() bool {
+	if active {
+		return abortRaised[cur]
+	}
+	return soloAbortRaised
+}
+
 const maxDecisions = 1 << 18
 
 var (
@@ -208,7 +238,13 @@ var (
 )
 
 //go:norace
-func CountBegin(cap uint64) { counting = true; countPaused = false; count = 0; countCap = cap }
+func CountBegin(cap uint64) {
+	counting = true
+	countPaused = false
+	count = 0
+	countCap = cap
+	soloAbortRaised = false
+}
 
 //go:norace
 func CountEnd() uint64 { counting = false; return count }
@@ -228,7 +264,7 @@ func Y(site uint32) {
 			clockSteps++
 			if count > countCap {
 				counting = false
-				panic(Abort{"solo step cap"})
+				raise("solo step cap")
 			}
 		}
 		return
@@ -245,12 +281,12 @@ func Y(site uint32) {
 	}
 	lastSite[me] = site
 	if aborting {
-		panic(Abort{"run aborted"})
+		raise("run aborted")
 	}
 	if step > cfg.StepCap {
 		stats.Capped = true
 		aborting = true
-		panic(Abort{"global step cap"})
+		raise("global step cap")
 	}
 	if inOp[me] {
 		opStep[me]++
@@ -261,7 +297,7 @@ func Y(site uint32) {
 				stats.OverrunStep = step
 			}
 			opStep[me] = 0 // let the unwinding make progress
-			panic(Abort{"operation step bound (L2)"})
+			raise("operation step bound (L2)")
 		}
 	}
 	if cfg.HookEvery != 0 && step%cfg.HookEvery == 0 && StepHook != nil {
@@ -758,6 +794,7 @@ func OpBegin(obj int32, limit uint64) {
 	opStep[me] = 0
 	opLimit[me] = limit
 	curObj[me] = obj
+	abortRaised[me] = false
 }
 
 // OpEnd marks the end of the current task's operation.
